@@ -1,7 +1,6 @@
 package main
 
 import (
-	"sync/atomic"
 	"encoding/binary"
 	"fmt"
 	"io"
@@ -9,6 +8,7 @@ import (
 	"net"
 	"strings"
 	"sync"
+	"sync/atomic"
 	"time"
 
 	"github.com/jcmturner/gofork/encoding/asn1"
@@ -102,22 +102,22 @@ type reqRec struct {
 
 type simKDC struct {
 	substituteTicket *messages.Ticket // the ticket put into every TGS reply instead of the one made for it
-	down int32 // 1 during an outage (set with atomic operations)
-	mu       sync.Mutex
-	realms   map[string]map[string]*simPrincipal
-	policy   simPolicy
-	pert     *perturbation
-	issued   []issueRec
-	requests []reqRec
-	lastGood map[string][]byte // kind -> last unperturbed reply
-	lastReq  map[string][]byte // kind -> last request bytes seen
-	lastRep  map[string][]byte // kind -> last reply bytes sent
-	lastKey  map[string]types.EncryptionKey
-	origin   time.Time
-	udp      []net.PacketConn
-	tcp      []net.Listener
-	skew     time.Duration
-	nIssue   int
+	down             int32            // 1 during an outage (set with atomic operations)
+	mu               sync.Mutex
+	realms           map[string]map[string]*simPrincipal
+	policy           simPolicy
+	pert             *perturbation
+	issued           []issueRec
+	requests         []reqRec
+	lastGood         map[string][]byte // kind -> last unperturbed reply
+	lastReq          map[string][]byte // kind -> last request bytes seen
+	lastRep          map[string][]byte // kind -> last reply bytes sent
+	lastKey          map[string]types.EncryptionKey
+	origin           time.Time
+	udp              []net.PacketConn
+	tcp              []net.Listener
+	skew             time.Duration
+	nIssue           int
 }
 
 func newSimKDC(origin time.Time) *simKDC {
